@@ -186,33 +186,33 @@ impl TryFrom<&str> for FeelDaysAndTimeDuration {
     if let Some(captures) = RE_DAYS_AND_TIME.captures(value) {
       let mut is_valid = false;
       let mut nanoseconds = 0_i128;
-      if let Some(days_match) = captures.name("days") {
-        if let Ok(days) = days_match.as_str().parse::<u64>() {
-          nanoseconds += (days as i128) * NANOSECONDS_IN_DAY;
-          is_valid = true;
-        }
-      }
-      if let Some(hours_match) = captures.name("hours") {
-        if let Ok(hours) = hours_match.as_str().parse::<u64>() {
-          nanoseconds += (hours as i128) * NANOSECONDS_IN_HOUR;
-          is_valid = true;
-        }
-      }
-      if let Some(minutes_match) = captures.name("minutes") {
-        if let Ok(minutes) = minutes_match.as_str().parse::<u64>() {
-          nanoseconds += (minutes as i128) * NANOSECONDS_IN_MINUTE;
-          is_valid = true;
-        }
-      }
-      if let Some(seconds_match) = captures.name("seconds") {
-        if let Ok(seconds) = seconds_match.as_str().parse::<u64>() {
-          nanoseconds += (seconds as i128) * NANOSECONDS_IN_SECOND;
+      let fields = [
+        ("days", NANOSECONDS_IN_DAY),
+        ("hours", NANOSECONDS_IN_HOUR),
+        ("minutes", NANOSECONDS_IN_MINUTE),
+        ("seconds", NANOSECONDS_IN_SECOND),
+      ];
+      for (name, unit) in fields {
+        if let Some(field_match) = captures.name(name) {
+          // a field that is too big to be represented makes the literal invalid, it must not be skipped
+          let field = field_match.as_str().parse::<i128>().ok();
+          match field.and_then(|v| v.checked_mul(unit)).and_then(|v| nanoseconds.checked_add(v)) {
+            Some(total) => nanoseconds = total,
+            None => return Err(invalid_date_and_time_duration_literal(value.to_string())),
+          }
           is_valid = true;
         }
       }
       if let Some(fractional_match) = captures.name("fractional") {
-        nanoseconds += super::fraction_to_nanos(fractional_match.as_str()) as i128;
+        match nanoseconds.checked_add(super::fraction_to_nanos(fractional_match.as_str()) as i128) {
+          Some(total) => nanoseconds = total,
+          None => return Err(invalid_date_and_time_duration_literal(value.to_string())),
+        }
         is_valid = true;
+      }
+      if nanoseconds / NANOSECONDS_IN_DAY > u64::MAX as i128 {
+        // after carrying the time fields over, the number of days has to fit into 64 bits
+        return Err(invalid_date_and_time_duration_literal(value.to_string()));
       }
       if captures.name("sign").is_some() {
         nanoseconds = -nanoseconds;
